@@ -1,0 +1,24 @@
+//go:build verif
+
+package merkle
+
+// Contracts for govc (see /verif/DESIGN.md). Comment-only: no declarations.
+
+//@ sort Roots = []tree.Root
+//@ sort Root32 = tree.Root
+
+// mfold(leaf, branch, index, k): the value after hashing k levels of the branch,
+// the spec's is_valid_merkle_branch loop:
+//   value = hash(branch[i] + value) if (index // 2**i) % 2 else hash(value + branch[i])
+//@ ufun mfold(Root32, Roots, int, int) Root32
+//@ axiom mfold_zero: forall l Root32, b Roots, ix int :: {mfold(l, b, ix, 0)} mfold(l, b, ix, 0) == l
+//@ axiom mfold_step: forall l Root32, b Roots, ix int, k int :: {mfold(l, b, ix, k)} k >= 1 ==> mfold(l, b, ix, k) == ite((ix / pow2(k - 1)) % 2 == 1, hash2(b[k - 1], mfold(l, b, ix, k - 1)), hash2(mfold(l, b, ix, k - 1), b[k - 1]))
+
+//@ func VerifyMerkleBranch(leaf, branch, depth, index, root) ok
+//@   property C19
+//@   requires depth <= len(branch)
+//@   ensures ok <==> mfold(leaf, branch, index, depth) == root
+//@   loop 1
+//@     invariant 0 <= i <= depth
+//@     invariant value == mfold(leaf, branch, index, i)
+//@     decreases depth - i
